@@ -147,7 +147,7 @@ class Session:
         return [J.alpha(getattr(o, "_value")) if getattr(o, "_value", None) is not None else {"k": "none"} for o in self.objs]
 
 
-def replay(pool, calls, tid):
+def replay_behaviour(pool, calls, tid):
     """shared-pool execution + single-call execution on fresh copies"""
     ses = Session(pool)
     frozen = [J.build_tree(J.heap_to_tree(pool["heap"], r)) for r in range(1, len(pool["heap"]) + 1)]
@@ -240,6 +240,17 @@ def simulate(pool, work, n, seed):
     return seqs, res
 
 
+REPLAY = None
+
+
+def replay(pid, path):
+    """re-run the recorded history (on the recorded pool) on the current tree; judged by ApiTrace like any other behaviour"""
+    global REPLAY
+    v = json.load(open(path))["case"]
+    REPLAY = (v["pool"], v.get("history") or v.get("calls"))
+    return run(pid, "quick", 0)
+
+
 def run(pid, tier, seed):
     rep = Report(pid, tier, seed)
     rnd = random.Random(5000 + seed)
@@ -253,9 +264,9 @@ def run(pid, tier, seed):
         from concurrent.futures import ThreadPoolExecutor
         kp = kf1_pool()
         # 1. the model, exhaustively (all pools in the thorough tier; a rotating subset in the quick tier) - TLC runs in parallel
-        chosen = pools if not quick else [pools[(seed + k) % len(pools)] for k in ((0, 2, 5) if pid == "C09" else (1, 3) if pid == "C06" else (4,))]
+        chosen = [] if REPLAY is not None else pools if not quick else [pools[(seed + k) % len(pools)] for k in ((0, 2, 5) if pid == "C09" else (1, 3) if pid == "C06" else (4,))]
         trace_pools = pools + ([kp] if pid in ("C06", "C09") else [])
-        sim_pools = [p for p in pools] if not quick else [pools[(seed + k) % len(pools)] for k in (0, 3, 6, 7)]
+        sim_pools = [] if REPLAY is not None else [p for p in pools] if not quick else [pools[(seed + k) % len(pools)] for k in (0, 3, 6, 7)]
         with ThreadPoolExecutor(max_workers=4) as tp:
             f_model = [(pool, tp.submit(model_check, pool, work, "Smoothmath.cfg", False, 6)) for pool in chosen]
             f_kf1 = tp.submit(model_check, kp, work, "Smoothmath_each.cfg", True, 4) if pid in ("C06", "C09") else None
@@ -283,7 +294,11 @@ def run(pid, tier, seed):
                 counts["simulated_behaviours"] += len(sim)
                 seqs += sim
             seqs += directed(pool, rnd, 25 if quick else 600, tier)
-            traces = [replay(pool, s, i) for i, s in enumerate(seqs, 1) if s]
+            if REPLAY is not None:
+                seqs = [REPLAY[1]] if pool["name"] == REPLAY[0] else []
+            traces = [replay_behaviour(pool, s, i) for i, s in enumerate(seqs, 1) if s]
+            if not traces:
+                continue
             tf = os.path.join(work, f"trace_{pool['name']}.ndjson")
             pf = os.path.join(work, f"pool_{pool['name']}.json")
             json.dump(pool, open(pf, "w"))
